@@ -15,6 +15,29 @@ pub fn exec(func: &str, a: &mut Args) -> String {
             match crate::p2::shape::ConvexPolygon::from_convex_hull(&pts) { None => "none".into(),
                 Some(p) => format!("{} {} {} {}", p.points().len(), p.points().iter().map(d2::fp).collect::<Vec<_>>().join(" "),
                     p.normals().len(), p.normals().iter().map(|n| d2::fv(&n.into_inner())).collect::<Vec<_>>().join(" ")) } }
+        // the modelled 3-D quickhull: the eigen-decomposition of the covariance matrix of the normalised cloud (nalgebra's
+        // `symmetric_eigen`, not transliterated) is an observed input of the model: `<evec columns, evals> ;; <output>`.
+        // Only the full-dimensional branch is modelled: a cloud the code treats as planar / linear / a point prints `lowdim`.
+        "hull3m" => { let n = a.u(); let pts: Vec<_> = (0..n).map(|_| d3::p(a)).collect();
+            if pts.len() < 3 { return "lowdim".into(); }
+            let mut np = pts.clone();
+            { // convex_hull_utils::normalize (pub(crate)): same public primitives, same expressions
+                let aabb = crate::p3::bounding_volume::details::local_point_cloud_aabb(&*np);
+                let diag = d3::na::distance(&aabb.mins, &aabb.maxs);
+                let center = aabb.center();
+                for c in np.iter_mut() { *c = (*c + (-center.coords)) / diag; } }
+            let eig = crate::p3::utils::cov(&np).symmetric_eigen();
+            let (evec, eval) = (eig.eigenvectors, eig.eigenvalues);
+            let obs = format!("{} {} {} {} {} {}", d3::hv(&evec.column(0).into_owned()), d3::hv(&evec.column(1).into_owned()), d3::hv(&evec.column(2).into_owned()),
+                hx(eval[0]), hx(eval[1]), hx(eval[2]));
+            let mut ev = [eval[0], eval[1], eval[2]];
+            ev.sort_by(|a, b| b.partial_cmp(a).unwrap_or(std::cmp::Ordering::Equal));
+            let dim = ev.iter().take_while(|e| !(e.abs() <= 1.0e-7)).count();
+            let out = if dim != 3 { "lowdim".to_string() } else { match try_convex_hull(&pts) {
+                Err(e) => format!("err {:?}", e).replace(' ', "_").replacen("err_", "err ", 1),
+                Ok((v, t)) => format!("{} {} {} {}", v.len(), v.iter().map(d3::fp).collect::<Vec<_>>().join(" "), t.len(),
+                    t.iter().map(|t| format!("{} {} {}", t[0], t[1], t[2])).collect::<Vec<_>>().join(" ")) } };
+            format!("{} ;; {}", obs, out) }
         "hull3" => { let n = a.u(); let pts: Vec<_> = (0..n).map(|_| d3::p(a)).collect();
             match try_convex_hull(&pts) {
                 Err(e) => format!("err {:?}", e).replace(' ', "_").replacen("err_", "err ", 1),
@@ -298,6 +321,23 @@ pub fn gen(r: &mut Rng, thorough: bool) -> Vec<(String, String)> {
         // (d) from_convex_mesh on explicit meshes
         let (mp, mt) = explicit_mesh(r);
         v.push(("polymesh".into(), format!("{} {} {}", fmt3(&mp), mt.len(), mt.iter().map(|t| format!("{} {} {}", t[0], t[1], t[2])).collect::<Vec<_>>().join(" "))));
+    }
+    // fu4: the modelled 3-D quickhull, index-exact against the real code (appended so that the stream above is unchanged)
+    let m3 = if thorough { 1200 } else { 400 };
+    for it in 0..m3 {
+        let base = match it % 8 {
+            0 | 1 => { let np3 = 4 + r.below(60) as usize; cloud3(r, 2, np3) }                    // generic random
+            2 => { let np3 = 4 + r.below(if it % 16 == 2 { 400 } else { 80 }) as usize; cloud3(r, 1, np3) }   // on a sphere
+            3 => { let k3 = r.below(6); let np3 = 4 + r.below(60) as usize; cloud3(r, k3, np3) }     // lattices, voxel corners, multi-scale
+            4 => solid3(r),                                                                        // pyramids / prisms: coplanar hull vertices
+            5 => merged_solid(r),                                                                  // boxes, lattice blocks, duplicates
+            6 => { let np3 = 4 + r.below(30) as usize; let mut p = cloud3(r, 2, np3); let d = p.clone(); p.extend(d); shuffle(r, &mut p); p }  // every point twice
+            _ => { // nearly flat cloud (thin slab): the silhouette repair / undecidable paths
+                let np3 = 5 + r.below(40) as usize; let th = *r.pick(&[1.0e-3, 1.0e-5, 1.0e-2]);
+                (0..np3).map(|_| P3::new(r.uniform(-1.0, 1.0), r.uniform(-1.0, 1.0), r.uniform(-1.0, 1.0) * th)).collect() }
+        };
+        let cloud = if it % 3 == 0 { base } else { let exact = r.bool(); similarity(r, &base, exact) };
+        v.push(("hull3m".into(), fmt3(&cloud)));
     }
     v
 }
